@@ -2,6 +2,7 @@ package handlers
 
 import (
 	"context"
+	"errors"
 	"fmt"
 	"net/http"
 	"time"
@@ -347,6 +348,12 @@ func (a *Application) handleEndpointError(w http.ResponseWriter, pr *proxyReques
 // content-type check prevents double-writing response after partial stream
 // (learned this the hard way when users got html error messages appended to their json)
 func (a *Application) handleProxyError(w http.ResponseWriter, err error) {
+	// a body that outgrew the size limit while being read is the client's error, not a gateway failure
+	var tooLarge *http.MaxBytesError
+	if errors.As(err, &tooLarge) && w.Header().Get(constants.HeaderContentType) == "" {
+		http.Error(w, "Request body too large", http.StatusRequestEntityTooLarge)
+		return
+	}
 	if w.Header().Get(constants.HeaderContentType) == "" {
 		http.Error(w, fmt.Sprintf("Proxy error: %v", err), http.StatusBadGateway)
 	}
